@@ -530,9 +530,75 @@ class Facts:
                     # t <s C with C >= 0 says nothing unsigned unless t known non-negative
                     if p in ("sgt", "sge") and oh < half and ol == oh:
                         pass
+        # backward refinement: facts about a term derived from t by an invertible chain
+        # (t + c, t - c, t / k, t >> k, zext t) bound t itself, provided the chain cannot wrap
+        if depth <= 1 and t[0] not in ("c",):
+            for ft, fv in self.items:
+                if ft[0] != "icmp" or not fv or ft[1][0] == "s":
+                    continue
+                _, p, x, y = ft
+                if y[0] == "c" and x != t and x[0] in ("bin", "cast"):
+                    bound = _bound_from(p, y[1])
+                elif x[0] == "c" and y != t and y[0] in ("bin", "cast"):
+                    bound = _bound_from(SWAP[p], x[1])
+                    x = y
+                else:
+                    continue
+                if bound is None:
+                    continue
+                r = self._invert(x, t, bound[0], bound[1], lo, hi, depth)
+                if r is not None:
+                    lo, hi = max(lo, r[0]), min(hi, r[1])
         if lo > hi:
             return (lo, lo)  # contradictory facts: unreachable path; keep something sane
         return (lo, hi)
+
+    def _invert(self, u, t, ulo, uhi, tlo, thi, depth, n=0):
+        """u is known to lie in [ulo, uhi]; return the implied interval of t (a subterm on u's
+        spine) or None. (tlo, thi) is what is already known about t, used for no-wrap side conditions."""
+        if u == t:
+            return (ulo, uhi)
+        if n > 6:
+            return None
+        bits = term_bits(u) or 64
+        M = MASK(bits)
+        if u[0] == "cast" and u[1] in ("zext",):
+            return self._invert(u[2], t, ulo, min(uhi, MASK(u[4])), tlo, thi, depth, n + 1)
+        if u[0] != "bin":
+            return None
+        op, a, b = u[1], u[2], u[3]
+        if b[0] == "c":
+            c = b[1]
+            ia = self.interval(a, depth + 2) if a != t else (tlo, thi)
+            if ia is None:
+                ia = (0, M)
+            if op == "add":
+                if ia[1] + c > M:
+                    return None         # may wrap
+                nlo, nhi = max(ulo - c, 0), uhi - c
+                if nhi < 0:
+                    return None
+                return self._invert(a, t, nlo, nhi, tlo, thi, depth, n + 1)
+            if op == "sub":
+                if ia[0] < c:
+                    return None         # may wrap
+                return self._invert(a, t, ulo + c, min(uhi + c, M), tlo, thi, depth, n + 1)
+            if op == "udiv" and c > 0:
+                return self._invert(a, t, ulo * c, min((uhi + 1) * c - 1, M), tlo, thi, depth, n + 1)
+            if op == "lshr" and c < bits:
+                return self._invert(a, t, ulo << c, min(((uhi + 1) << c) - 1, M), tlo, thi, depth, n + 1)
+            if op == "mul" and c > 0:
+                if ia[1] * c > M:
+                    return None
+                return self._invert(a, t, -(-ulo // c), uhi // c, tlo, thi, depth, n + 1)
+        if a[0] == "c" and op == "sub":
+            # u = c - b: no wrap needs b <= c
+            c = a[1]
+            ib = self.interval(b, depth + 2) if b != t else (tlo, thi)
+            if ib is None or ib[1] > c:
+                return None
+            return self._invert(b, t, max(c - uhi, 0), c - ulo, tlo, thi, depth, n + 1)
+        return None
 
     def _interval_nofacts_on(self, other, exclude, depth):
         if exclude in set(subterms(other)):
@@ -591,6 +657,22 @@ class Facts:
             if iv[0] > 0:
                 return "NZ"
         return None
+
+
+def _bound_from(pred, c):
+    """interval of x implied by (x pred c)"""
+    M = (1 << 64) - 1
+    if pred == "ult":
+        return (0, c - 1) if c > 0 else None
+    if pred == "ule":
+        return (0, c)
+    if pred == "ugt":
+        return (c + 1, M)
+    if pred == "uge":
+        return (c, M)
+    if pred == "eq":
+        return (c, c)
+    return None
 
 
 def _implies(q, v, p):
